@@ -12,6 +12,8 @@ CfgCloseOnly == [poll |-> 5, ping_rate |-> 0, ping_timeout |-> 0, close_timeout 
 
 \* the design satisfies the property: in every reachable state the observation prefix is admissible,
 \* and every complete behaviour gets the verdict "ok"
+\* the alphabets as data (the harness draws random scripts from them for trace validation)
+EmitAlphabet == pc # "start" \/ PrintT(ToJson([alphabet |-> [items |-> ItemsT, http |-> HttpAll]]))
 MonPrefix == PrefixOK(obs)
 MonFinal  == pc = "done" => Verdict(obs) = "ok"
 =============================================================================
